@@ -28,6 +28,7 @@ S == INSTANCE Symtab WITH Plans <- {}, rows <- srows, ctx <- sctx, dev <- sdev, 
 (* KNOWN-FINDING PREDICATES (to be moved to KnownFindings.tla; FALSE = not listed, i.e. a violation). *)
 KF_C17_walk_stops_at_main(ev) == FALSE   \* an alias of an attached symbol is also reported unreferenced (walk stops at the main symbol)
 KF_C17_public_set(ev)         == FALSE   \* the corpus' public symbols differ from the ELF table (a C18 deviation seen through C17)
+KF_C17_lookup_precedes_main_hint(ev) == FALSE \* a DIE is dropped because an earlier, unexported symbol at its address is the main symbol
 KF_C28_nokernel_corpus(ev)    == FALSE   \* --no-linux-kernel-mode: the corpus' symbols are still only the ksymtab-marked ones
 (* ------------------------------------------------------------------------------------------------ *)
 
@@ -48,8 +49,11 @@ KindVerdict(ev, k, sect, rws, c) ==
       unref    == ToSet(k.unref)
       dsyms    == {k.decls[i].sym : i \in 1..Len(k.decls)}
       attached == {s \in pub : s \in dsyms \/ \E cl \in E.classes : s \in cl /\ cl \cap dsyms # {}}
-      diIds    == {S!Id(rws[i]) : i \in {j \in X : S!SymRec(rws[j]).sect = sect /\
-                                            \E q \in 1..Len(k.di) : k.di[q].name = rws[j].name /\ k.di[q].addr = rws[j].value}}
+      diIdx    == {j \in X : S!SymRec(rws[j]).sect = sect /\
+                                \E q \in 1..Len(k.di) : k.di[q].name = rws[j].name /\ k.di[q].addr = rws[j].value}
+      missIdx  == {j \in diIdx : S!Id(rws[j]) \notin attached}
+      \* an earlier row at the same address that is in the address map but not public / exported: the main symbol of the chain
+      Shadowed(j) == \E i \in 1..(j - 1) : S!InMap(rws[i]) /\ i \notin X /\ S!AddrBase(rws[i], c) = S!AddrBase(rws[j], c)
       XK       == S!ExpectedIdx(rws, S!CodeCtx(c))
       elfPubK  == {S!Id(rws[i]) : i \in {j \in XK : S!SymRec(rws[j]).sect = sect}}
   IN IF pub # elfPub /\ c.kernel /\ ~c.kmode /\ pub = elfPubK
@@ -63,7 +67,11 @@ KindVerdict(ev, k, sect, rws, c) ==
            ELSE "bad:" \o sect \o "-both-attached-and-unreferenced:" \o Join(attached \cap unref))
      ELSE IF attached \cup unref # pub THEN "bad:" \o sect \o "-neither-attached-nor-unreferenced:" \o Join(pub \ (attached \cup unref))
      ELSE IF ~(unref \subseteq pub) THEN "bad:" \o sect \o "-unreferenced-symbol-not-public:" \o Join(unref \ pub)
-     ELSE IF k.hasDi /\ ~(diIds \subseteq attached) THEN "bad:" \o sect \o "-symbol-with-debug-info-not-in-interface:" \o Join(diIds \ attached)
+     ELSE IF k.hasDi /\ missIdx # {}
+     THEN (IF \A j \in missIdx : Shadowed(j)
+           THEN Kf(KF_C17_lookup_precedes_main_hint(ev), "C17-lookup-precedes-main-hint",
+                   sect \o "-symbol-with-debug-info-not-in-interface-behind-unexported-main-symbol:" \o Join({S!Id(rws[j]) : j \in missIdx}))
+           ELSE "bad:" \o sect \o "-symbol-with-debug-info-not-in-interface:" \o Join({S!Id(rws[j]) : j \in missIdx}))
      ELSE "ok"
 
 Verdict(ev) ==
